@@ -217,12 +217,12 @@ def fam_cancel(rng, pid):
 
 def fam_batch(rng, pid):
     b = Builder(rng, 'batch', pid)
-    cfg = base_cfg(rng, conc=rng.choice([1, 2, 3, 4]))
+    cfg = base_cfg(rng, conc=rng.choice([1, 2, 2, 3, 4]))
     pr = PRIOS if cfg['queues'][0] == 'prio' else None
     ops = []
     bs = []
     for _ in range(rng.choice([1, 1, 2])):
-        op, bid = b.addall(0, rng.choice([0, 1, 2, 3, 4]), pr)
+        op, bid = b.addall(0, rng.choice([0, 1, 2, 2, 3, 4]), pr)
         ops.append(op)
         bs.append(bid)
         if rng.random() < 0.3:
@@ -371,6 +371,22 @@ def fam_dist(rng, pid):
     return b.prog(cfg)
 
 
+def fam_tune(rng, pid):
+    """idle pool workers accumulate behind a long queue, then TunePool shrinks the pool while new jobs are dispatched"""
+    b = Builder(rng, 'tune', pid)
+    conc = rng.choice([2, 3, 3, 4])
+    cfg = base_cfg(rng, conc=conc)
+    cfg['ratio'] = rng.choice([0, 0, 1, 50])
+    pr = PRIOS if cfg['queues'][0] == 'prio' else None
+    ops = [b.add(0, pr) for _ in range(2 * conc + rng.choice([1, 2, 3]))] + [{'op': 'WUF'}, {'op': 'NumIdle'}]
+    ops += [b.add(0, pr) for _ in range(rng.choice([1, 2, 3]))] + [{'op': 'WUF'}]
+    b.client('c1', ops)
+    b.client('ctl', [{'op': 'WUF'}, {'op': 'TunePool', 'n': rng.choice([1, 1, 2])}, {'op': 'NumIdle'}] + ([{'op': 'TunePool', 'n': conc}] if rng.random() < 0.4 else []) + [{'op': 'WUF'}])
+    if rng.random() < 0.4:
+        b.client('c2', [b.add(0, pr) for _ in range(rng.choice([1, 2]))])
+    return b.prog(cfg)
+
+
 def fam_bind2(rng, pid):
     """two clients bind queues to a fresh worker at the same time, then saturate it"""
     b = Builder(rng, 'bind2', pid)
@@ -432,7 +448,7 @@ def life_exhaustive(maxlen, seed, prefix):
     return out
 
 
-FAMILIES = {'life': fam_life, 'bind2': fam_bind2, 'adapter': fam_adapter, 'dist': fam_dist, 'basic': fam_basic, 'barrier': fam_barrier, 'ctl': fam_ctl, 'cancel': fam_cancel, 'batch': fam_batch,
+FAMILIES = {'life': fam_life, 'bind2': fam_bind2, 'tune': fam_tune, 'adapter': fam_adapter, 'dist': fam_dist, 'basic': fam_basic, 'barrier': fam_barrier, 'ctl': fam_ctl, 'cancel': fam_cancel, 'batch': fam_batch,
             'handle': fam_handle, 'pool': fam_pool, 'multi': fam_multi}
 
 
